@@ -1396,11 +1396,14 @@ Fixpoint state_at (n : nat) : st :=
 (** the status returned by poll number [n] (counting from 0); the loop stops at
     the first [n] whose status is not RUNNING *)
 Definition status_at (n : nat) : SStatus := snd (poll c g (state_at n) (ps n)).
+(** the loop is still running when it comes to poll number [n] *)
+Definition running_upto (n : nat) : Prop := forall k, k < n -> status_at k = SRUNNING.
 
-Definition valid_stream : Prop := forall n, valid_pin (state_at n) (ps n) = true.
-Definition no_error : Prop := forall n, aborts c (ps n) = false.
-Definition fair : Prop := forall n, inprog (state_at n) <> [] ->
-  exists m, n <= m /\ delivers_terminal c (state_at m) (ps m) = true.
+(** hypotheses on the stream; each only speaks about polls the loop really gets to *)
+Definition valid_stream : Prop := forall n, running_upto n -> valid_pin (state_at n) (ps n) = true.
+Definition no_error : Prop := forall n, running_upto n -> aborts c (ps n) = false.
+Definition fair : Prop := forall n, running_upto n -> inprog (state_at n) <> [] ->
+  exists m, n <= m /\ (running_upto m -> delivers_terminal c (state_at m) (ps m) = true).
 Definition quiet_from (N : nat) : Prop := forall m, N <= m -> noisy c g (ps m) = false.
 Definition quiet : Prop := exists N, quiet_from N.
 
@@ -1410,71 +1413,86 @@ Hypothesis T0 : Thr c s0.
 Hypothesis L0 : LInv g s0.
 Hypothesis V : valid_stream.
 
-Lemma stream_inv n : Inv g (state_at n) /\ Thr c (state_at n) /\ LInv g (state_at n).
+Lemma running_upto_S n : running_upto n -> status_at n = SRUNNING -> running_upto (S n).
+Proof. intros R E k Hk. destruct (Nat.eq_dec k n) as [->|]; auto. apply R. lia. Qed.
+Lemma running_upto_le n m : m <= n -> running_upto n -> running_upto m.
+Proof. intros H R k Hk. apply R. lia. Qed.
+
+Lemma stream_inv n : running_upto n -> Inv g (state_at n) /\ Thr c (state_at n) /\ LInv g (state_at n).
 Proof.
-  induction n as [|n (I & T & L)]; [splits; auto|]. cbn [state_at].
-  destruct (poll_Inv c g (state_at n) (ps n) W I T (V n)) as [I' T']. splits; auto.
+  induction n as [|n IH]; intros R; [splits; auto|]. cbn [state_at].
+  assert (Rn : running_upto n) by (eapply running_upto_le; [|exact R]; lia).
+  destruct (IH Rn) as (I & T & L).
+  destruct (poll_Inv c g (state_at n) (ps n) W I T (V n Rn)) as [I' T']. splits; auto.
   apply poll_LInv; auto.
 Qed.
 
 Lemma status_dec (r : SStatus) : r = SRUNNING \/ r <> SRUNNING.
 Proof. destruct r; auto; right; discriminate. Qed.
 
+Lemma running_dec n : running_upto n \/ exists k, status_at k <> SRUNNING.
+Proof.
+  induction n as [|n [IH|IH]]; [left; intros k Hk; lia| |right; exact IH].
+  destruct (status_dec (status_at n)) as [R|R]; [left; apply running_upto_S; auto|right; eauto].
+Qed.
+
 Lemma status_running_next n : status_at n = SRUNNING -> completion_gen g (state_at (S n)) = SRUNNING.
 Proof. intros H. unfold status_at in H. apply (poll_running c g) in H. apply H. Qed.
 
 (** the potential never increases on quiet polls *)
-Lemma walk N d : quiet_from N -> forall m, N <= m ->
+Lemma walk N d : quiet_from N -> forall m, N <= m -> running_upto m ->
   (exists n, status_at n <> SRUNNING) \/
-  (Phi g (state_at (m + d)) <= Phi g (state_at m) /\
+  (running_upto (m + d) /\ Phi g (state_at (m + d)) <= Phi g (state_at m) /\
    (completion_gen g (state_at m) = SRUNNING -> completion_gen g (state_at (m + d)) = SRUNNING)).
 Proof.
-  intros Q. induction d as [|d IH]; intros m Hm.
-  - right. rewrite Nat.add_0_r. split; auto.
-  - destruct (IH m Hm) as [E|[P C]]; [left; exact E|].
+  intros Q. induction d as [|d IH]; intros m Hm Rm.
+  - right. rewrite Nat.add_0_r. splits; auto.
+  - destruct (IH m Hm Rm) as [E|(R' & P & C)]; [left; exact E|].
     destruct (status_dec (status_at (m + d))) as [R|R]; [|left; eauto].
-    right. replace (m + S d) with (S (m + d)) by lia. split.
+    right. replace (m + S d) with (S (m + d)) by lia. splits.
+    + apply running_upto_S; auto.
     + cbn [state_at]. eapply Nat.le_trans; [|exact P]. apply poll_phi_le. apply (quiet_no_hw c g). apply Q. lia.
     + intros _. apply status_running_next. exact R.
 Qed.
 
 Theorem terminates_from N : quiet_from N -> no_error -> fair ->
-  forall k m, N <= m -> completion_gen g (state_at m) = SRUNNING -> Phi g (state_at m) <= k ->
+  forall k m, N <= m -> running_upto m -> completion_gen g (state_at m) = SRUNNING -> Phi g (state_at m) <= k ->
   exists n, status_at n <> SRUNNING.
 Proof.
-  intros Q NE F. induction k as [|k IH]; intros m Hm C P.
+  intros Q NE F. induction k as [|k IH]; intros m Hm Rm C P.
   - (* potential 0 while RUNNING is impossible: the next productive poll would decrease it *)
-    destruct (stream_inv m) as (I & T & L).
+    destruct (stream_inv m Rm) as (I & T & L).
     destruct (inprog (state_at m)) as [|a l] eqn:Ei.
-    + pose proof (poll_phi_lt_idle c g (state_at m) (ps m) W I L (V m) Ei C (NE m)). lia.
-    + destruct (F m) as (m' & Hle & D); [rewrite Ei; discriminate|].
-      destruct (walk N (m' - m) Q m Hm) as [E|[P' _]]; [exact E|].
-      replace (m + (m' - m)) with m' in P' by lia.
-      destruct (stream_inv m') as (I' & _ & _).
+    + pose proof (poll_phi_lt_idle c g (state_at m) (ps m) W I L (V m Rm) Ei C (NE m Rm)). lia.
+    + destruct (F m Rm) as (m' & Hle & D); [rewrite Ei; discriminate|].
+      destruct (walk N (m' - m) Q m Hm Rm) as [E|(R' & P' & _)]; [exact E|].
+      replace (m + (m' - m)) with m' in R', P' by lia.
+      destruct (stream_inv m' R') as (I' & _ & _).
       assert (Q' : noisy c g (ps m') = false) by (apply Q; lia).
       pose proof (poll_phi_lt_report c g (state_at m') (ps m') I' (quiet_no_hw _ _ _ Q')
-                    (quiet_terminal_productive _ _ _ _ Q' D)). lia.
-  - destruct (stream_inv m) as (I & T & L).
+                    (quiet_terminal_productive _ _ _ _ Q' (D R'))). lia.
+  - destruct (stream_inv m Rm) as (I & T & L).
     destruct (inprog (state_at m)) as [|a l] eqn:Ei.
-    + pose proof (poll_phi_lt_idle c g (state_at m) (ps m) W I L (V m) Ei C (NE m)) as Lt.
+    + pose proof (poll_phi_lt_idle c g (state_at m) (ps m) W I L (V m Rm) Ei C (NE m Rm)) as Lt.
       destruct (status_dec (status_at m)) as [R|R]; [|eauto].
-      apply (IH (S m)); [lia | apply status_running_next; exact R | cbn [state_at]; lia].
-    + destruct (F m) as (m' & Hle & D); [rewrite Ei; discriminate|].
-      destruct (walk N (m' - m) Q m Hm) as [E|[P' C']]; [exact E|].
-      replace (m + (m' - m)) with m' in P', C' by lia.
-      destruct (stream_inv m') as (I' & _ & _).
+      apply (IH (S m)); [lia | apply running_upto_S; auto | apply status_running_next; exact R | cbn [state_at]; lia].
+    + destruct (F m Rm) as (m' & Hle & D); [rewrite Ei; discriminate|].
+      destruct (walk N (m' - m) Q m Hm Rm) as [E|(R' & P' & C')]; [exact E|].
+      replace (m + (m' - m)) with m' in R', P', C' by lia.
+      destruct (stream_inv m' R') as (I' & _ & _).
       assert (Q' : noisy c g (ps m') = false) by (apply Q; lia).
       pose proof (poll_phi_lt_report c g (state_at m') (ps m') I' (quiet_no_hw _ _ _ Q')
-                    (quiet_terminal_productive _ _ _ _ Q' D)) as Lt.
+                    (quiet_terminal_productive _ _ _ _ Q' (D R'))) as Lt.
       destruct (status_dec (status_at m')) as [R|R]; [|eauto].
-      apply (IH (S m')); [lia | apply status_running_next; exact R | cbn [state_at]; lia].
+      apply (IH (S m')); [lia | apply running_upto_S; auto | apply status_running_next; exact R | cbn [state_at]; lia].
 Qed.
 
 Theorem terminates : no_error -> fair -> quiet -> exists n, status_at n <> SRUNNING.
 Proof.
   intros NE F [N Q].
-  destruct (status_dec (status_at N)) as [R|R]; [|eauto].
-  apply (terminates_from N Q NE F (Phi g (state_at (S N))) (S N)); [lia | apply status_running_next; exact R | lia].
+  destruct (running_dec (S N)) as [R|E]; [|exact E].
+  apply (terminates_from N Q NE F (Phi g (state_at (S N))) (S N)); [lia | exact R | | lia].
+  apply status_running_next. apply R. lia.
 Qed.
 
 (** quantitative form: while the loop runs on quiet input, every productive poll
@@ -1491,15 +1509,16 @@ Proof.
   intros C0 NE. induction n as [|n IH]; intros H; [cbn; lia|].
   assert (IHn : count_productive n + Phi g (state_at n) <= Phi g s0) by (apply IH; intros; apply H; lia).
   destruct (H n (Nat.lt_succ_diag_r n)) as [Qn Rn].
+  assert (Ru : running_upto n) by (intros k Hk; apply H; lia).
   assert (Cn : completion_gen g (state_at n) = SRUNNING).
   { destruct n as [|n']; [exact C0|]. apply status_running_next. apply H. lia. }
-  destruct (stream_inv n) as (I & T & L).
+  destruct (stream_inv n Ru) as (I & T & L).
   cbn [count_productive state_at].
   pose proof (poll_phi_le c g (state_at n) (ps n) (quiet_no_hw _ _ _ Qn)) as Le.
   destruct (productive_poll n) eqn:Pn; [|lia].
   unfold productive_poll in Pn. apply orb_true_iff in Pn. destruct Pn as [Pn|Pn].
   - apply is_nil_true in Pn.
-    pose proof (poll_phi_lt_idle c g (state_at n) (ps n) W I L (V n) Pn Cn (NE n)). lia.
+    pose proof (poll_phi_lt_idle c g (state_at n) (ps n) W I L (V n Ru) Pn Cn (NE n Ru)). lia.
   - pose proof (poll_phi_lt_report c g (state_at n) (ps n) I (quiet_no_hw _ _ _ Qn)
                   (quiet_terminal_productive _ _ _ _ Qn Pn)). lia.
 Qed.
@@ -1584,16 +1603,17 @@ Qed.
 Ltac ex_cases n := destruct n as [|[|[|[|[|[|n]]]]]];
   [| | | | | | change (S (S (S (S (S (S n)))))) with (6 + n) in * ].
 
-Lemma ex_valid : valid_stream ex_c ex_g (init ex_g) ex_ps.
+Lemma ex_valid_all n : valid_pin (ex_state n) (ex_ps n) = true.
 Proof.
-  intros n. ex_cases n; [vm_compute; reflexivity ..|].
+  ex_cases n; [vm_compute; reflexivity ..|].
   destruct (ex_tail n) as [E1 E2]. rewrite E1, E2. vm_compute. reflexivity.
 Qed.
-Lemma ex_no_error : no_error ex_c ex_ps.
-Proof. intros n. ex_cases n; [reflexivity ..|]. destruct (ex_tail n) as [_ E2]. rewrite E2. reflexivity. Qed.
-Lemma ex_fair : fair ex_c ex_g (init ex_g) ex_ps.
+Lemma ex_no_error_all n : aborts ex_c (ex_ps n) = false.
+Proof. ex_cases n; [reflexivity ..|]. destruct (ex_tail n) as [_ E2]. rewrite E2. reflexivity. Qed.
+Lemma ex_fair_all n : inprog (ex_state n) <> [] ->
+  exists m, n <= m /\ delivers_terminal ex_c (ex_state m) (ex_ps m) = true.
 Proof.
-  intros n. ex_cases n; intros H.
+  ex_cases n; intros H.
   - exfalso. apply H. vm_compute. reflexivity.
   - exists 1. split; [lia|vm_compute; reflexivity].
   - exists 2. split; [lia|vm_compute; reflexivity].
@@ -1602,6 +1622,12 @@ Proof.
   - exfalso. apply H. vm_compute. reflexivity.
   - exfalso. apply H. destruct (ex_tail n) as [E1 _]. rewrite E1. vm_compute. reflexivity.
 Qed.
+Lemma ex_valid : valid_stream ex_c ex_g (init ex_g) ex_ps.
+Proof. intros n _. apply ex_valid_all. Qed.
+Lemma ex_no_error : no_error ex_c ex_g (init ex_g) ex_ps.
+Proof. intros n _. apply ex_no_error_all. Qed.
+Lemma ex_fair : fair ex_c ex_g (init ex_g) ex_ps.
+Proof. intros n _ H. destruct (ex_fair_all n H) as (m & A & B). exists m. split; auto. Qed.
 Lemma ex_quiet : quiet ex_c ex_g ex_ps.
 Proof.
   exists 2. intros m Hm. ex_cases m; [lia | lia | reflexivity ..|].
@@ -1616,7 +1642,7 @@ Proof. vm_compute. split; reflexivity. Qed.
 
 (** * Part I: the statements for reachable states *)
 Theorem terminates_reachable c g s ps : WF g -> reach_st c g s ->
-  valid_stream c g s ps -> no_error c ps -> fair c g s ps -> quiet c g ps ->
+  valid_stream c g s ps -> no_error c g s ps -> fair c g s ps -> quiet c g ps ->
   exists n, status_at c g s ps n <> SRUNNING.
 Proof.
   intros W R V NE F Q. destruct (reach_st_inv c g s W R) as (I & T & L & _).
@@ -1624,7 +1650,7 @@ Proof.
 Qed.
 
 Theorem productive_bound_reachable c g s ps n : WF g -> reach_st c g s -> completion_gen g s = SRUNNING ->
-  valid_stream c g s ps -> no_error c ps ->
+  valid_stream c g s ps -> no_error c g s ps ->
   (forall m, m < n -> noisy c g (ps m) = false /\ status_at c g s ps m = SRUNNING) ->
   count_productive c g s ps n + Phi g (state_at c g s ps n) <= Phi g s.
 Proof.
@@ -1653,3 +1679,6 @@ Qed.
 
 Lemma ex_reach : reach_st ex_c ex_g (init ex_g).
 Proof. constructor. Qed.
+
+Lemma ex_terminates : exists n, status_at ex_c ex_g (init ex_g) ex_ps n <> SRUNNING.
+Proof. exact (terminates_reachable ex_c ex_g (init ex_g) ex_ps ex_wf ex_reach ex_valid ex_no_error ex_fair ex_quiet). Qed.
